@@ -447,8 +447,8 @@ func (g *gen) otherForm(key string, v int) string {
 	if v == 0 {
 		forms = append(forms, "negzero")
 	}
-	if v == 0 || v == 1 {
-		forms = append(forms, "bool")
+	if (v == 0 || v == 1) && key != "helperv" {
+		forms = append(forms, "bool") // (not for the helper's addend: `x + True` is a type error in Starlark)
 	}
 	cur := g.p.Forms[key]
 	for {
@@ -1269,7 +1269,11 @@ func genHistory(r *rng, prop string, nops int) *History {
 			case x < 35:
 				g.tplGC()
 			case x < 40:
-				g.tplFault() // a real temporary left by an interrupted record save
+				// a real temporary left by a record save that was interrupted during the load (the records themselves are
+				// semantically untouched there, so the twin history without collections stays comparable)
+				op := g.build(g.p.topRoot())
+				op.CrashAt, op.CrashPhase = 1+r.below(3*len(g.p.live())), "load"
+				g.add(op)
 			case x < 45:
 				g.tplPartial()
 			case x < 72:
